@@ -113,7 +113,9 @@ def gen_case(r, k, same=None, long_=False):
     # timeStepFactor k > 1 on the bias and its variables (only allowed with same-step total forces): they are
     # awake at the steps that are multiples of k (model: abf_mstep).  No restraint (its own timeStepFactor would be 1)
     # and no run-time switching.
-    c["tsf"] = r.choice([2, 3]) if (same and r.random() < 0.12) else 1
+    c["tsf"] = r.choice([2, 3, 3, 5, 6, 7, 12]) if (same and r.random() < 0.14) else 1
+    # the engine's step number at the start of the job (`setstep`): small, or beyond the range of int / of a double's integers
+    c["step0"] = r.choice([0, 0, 0, 1, 17, 2 ** 31 - 2, 2 ** 32 + 5, 2 ** 53 - 3, 2 ** 61 + 7])
     if c["tsf"] > 1:
         c["toggle"] = False
         for v in vars_:
@@ -422,6 +424,8 @@ def scenario(c):
     amap, natoms = atom_map(c)
     L = ["echo CASE %s" % c["id"], "natoms %d" % natoms, "samestep %d" % (1 if c["same"] else 0), "includecv 1",
          "temperature %s" % fmt(c.get("T", 0.0)), "prefix %s" % c["id"], "new"]
+    if c.get("step0"):
+        L.append("setstep %d" % c["step0"])
     if c.get("pre"):
         # the abf bias is defined after the engine has made some steps with the variables and the other biases
         L += config_lines(c, "noabf")
@@ -491,7 +495,7 @@ def model_case(c, im=None):
     for v in vs:
         nt *= v["nx"]
     parts += [str(int(bool(c.get("scaled"))))] + [V.hexf(x) for x in (c["sfac"] if c.get("scaled") else [1.0] * nt)]
-    parts += [str(c.get("tsf", 1)), str(len(c.get("pre", [])))]
+    parts += [str(c.get("tsf", 1)), str(c.get("step0", 0) if c.get("tsf", 1) > 1 else 0), str(len(c.get("pre", [])))]
     parts += [str(len(inputs_of(c)))]
     for ds in inputs_of(c):
         parts += [str(x) for x in ds["cnt"]] + [V.hexf(g) for g in ds["grad"]]
@@ -647,7 +651,7 @@ def expected_samples(c):
             continue
         if c["same"]:
             rel, cont = clk[t]
-            elig = ((rel > 0 and not cont) or c["szd"]) and rel % c.get("tsf", 1) == 0
+            elig = ((rel > 0 and not cont) or c["szd"]) and (c.get("step0", 0) + rel) % c.get("tsf", 1) == 0
         else:
             if t + 1 >= n:
                 continue
@@ -790,7 +794,7 @@ def oracle(c, impl_steps, state=None, files=None, loads=None):
     clk_ = clocks(c)
     per1 = nd == 1 and c["vars"][0]["periodic"]
     for t, (st, f) in enumerate(zip(c["steps"], impl_steps)):
-        if clk_[t][0] % tsf != 0:
+        if (c.get("step0", 0) + clk_[t][0]) % tsf != 0:
             # bias and variables asleep: nothing is computed and nothing may be applied
             if any(x != 0.0 for x in f["af"]):
                 bad.append(("oracle:af", "step %d: timeStepFactor %d, the variables are asleep but apply the force %s" % (t, tsf, f["af"])))
